@@ -71,6 +71,10 @@ pub fn run_world<T: 'static, Fut: Future<Output = T> + 'static>(
     };
     let _pump = sim.spawn_local(net.clone().pump(sim.clone()));
     let fut = scenario(world);
+    let default_case = crate::hang::set_default_case(cfg.sim.seed);
     let (r, stats) = sim.run(&cfg.sim, fut);
+    if default_case {
+        crate::hang::clear_case();
+    }
     (r, stats, net)
 }
